@@ -220,6 +220,10 @@ class Interp:
                     if v is not None and v[0] == 'adt' and v[1].endswith('Box'):
                         c = v[3][0]
                         continue
+                    if v is not None and v[0] == 'opaque' and getattr(self, 'opaque_fields', False):
+                        # (P-TRACE only) what an unknown value refers to is unknown
+                        c = Cell(('opaque', str(v[1]) + '.*'))
+                        continue
                     raise Unmodelled('deref of non-reference %r' % (v,))
                 c = v[1]
             elif isinstance(e, dict) and 'f' in e:
@@ -1171,6 +1175,8 @@ class Interp:
         v = A[0]
         is_ref = v[0] == 'ref'
         o = self.deref_all(v)
+        if o[0] == 'opaque' and getattr(self, 'opaque_fields', False) and seg in ('unwrap', 'expect', 'unwrap_unchecked', 'unwrap_or_default'):
+            return ('opaque', str(o[1]) + '.value')          # (P-TRACE only) the payload of an unknown Option / Result is unknown
         if o[0] != 'adt':
             raise Unmodelled('%s on %r' % (name, o[0]))
         some = o[2] == 1 if o[1] == 'core::option::Option' else o[2] == 0
